@@ -53,6 +53,13 @@ func runSQLLim0(c *core.Ctx) {
 				c.Unknown(nil, fname(c, fn), construct, P.Pos(call.Pos()), "path enumeration gave up")
 				continue
 			}
+			// the limit applied is min(configured maximum, the filter's own limit)
+			xp := an.PathOf(x)
+			if len(fn.Params) == 3 {
+				lim, mx := "p:"+fn.Params[1].Name(), "p:"+fn.Params[2].Name()
+				okMin := strings.Contains(xp, "min("+lim+","+mx+")") || strings.Contains(xp, "min("+mx+","+lim+")")
+				c.Check(okMin && strings.Contains(xp, mx), nil, fname(c, fn), construct+"/value", P.Pos(call.Pos()), "limit ← "+xp, "the limit clause is "+xp+", want min(the filter's limit, the configured maximum) (and the maximum alone when the filter has none)")
+			}
 			c.Check(!set.Contains(0), nil, fname(c, fn), construct, P.Pos(call.Pos()),
 				"argument ∈ "+set.String()+" at the call: 0 excluded",
 				"argument ∈ "+set.String()+" at the call: goqu's Limit(0) clears the limit, so a filter with \"limit\":0 returns every matching row")
